@@ -160,7 +160,7 @@ def run_child(case, hang=None):
 
 
 # findings that consist of a wait running into its bound and nothing else: confirmed by one re-run with a
-# three times larger bound before they are reported (a loaded machine must not produce a false alarm; a
+# more than twice larger bound before they are reported (a loaded machine must not produce a false alarm; a
 # genuine hang is deterministic or leaves other evidence - unmatched id, dead task - which is never retried)
 SOFT = {'no-response', 'stream-incomplete', 'pipe-missing', 'pipe-error', 'leftover', 'client-error'}
 
@@ -176,7 +176,7 @@ def run_case(case):
     res = _once(case)
     if res['monitors'] and all(m['rule'] in SOFT for m in res['monitors']):
         first = [m['rule'] for m in res['monitors']]
-        res = _once(case, hang=60)
+        res = _once(case, hang=45)
         res['retried_after'] = first
     return res
 
